@@ -149,7 +149,7 @@ def atom_info(E, l, r):
     from .props import c01
     l_long = width_of(E, l)
     r_imm = bool(r.small_constant)
-    want = True if (l.signed and l_long) else None
+    want = True if ((l.signed or r.signed) and l_long) else None
     r_width = want if want is not None else width_of(E, r)
     r_long = (not r_imm) and (c01.ret_long(E, r, True) if want else width_of(E, r))
     sg = bool(l.signed or r.signed)
@@ -183,8 +183,6 @@ def atom_classes(E, l, r):
     from .props import c01
     a = atom_info(E, l, r)
     out = set()
-    if (not l.signed) and a["l_long"] and r.signed and not a["r_imm"] and not a["r_long"]:
-        out.add("u64-vs-negative-short")
     if (not a["short"]) and ((is_short_reg(E, l) and not a["widen"]) or (not a["r_imm"] and is_short_reg(E, r))):
         out.add("narrow-reg-in-64")
     if a["widen"] and c01.reg_chain(E, l):
@@ -470,6 +468,21 @@ def build_atom(rng, desc):
     else:
         c = ["truth", la]
     prog["body"] = [marks.bit(), form_stmt(form, c, [marks.bit()], [marks.bit()]), marks.bit()]
+    return prog
+
+
+def gen_unary(rng):
+    """comparisons with a unary operator over one leaf as an operand (abs / unary minus of every leaf kind against a
+    constant or another leaf): the shapes of the repaired classes abs-32, unary-in-place and unary-32-in-64"""
+    prog = base_cprog(rng, kinds=rng.choice(["l", "lg"]))
+    marks = Marks()
+    kinds = [k for k in dsl.LEAF_KINDS if k != "c"]
+    a = [rng.choice(["abs", "abs", "neg"]), dsl.pick_leaf(rng, prog, rng.choice(kinds))]
+    b = ["c", rng.choice(COND_CONSTS)] if rng.random() < 0.5 else dsl.pick_leaf(rng, prog, rng.choice(kinds))
+    if rng.random() < 0.3:
+        a, b = b, a
+    c = ["cmp", rng.choice(CMP_NAMES), a, b]
+    prog["body"] = [marks.bit(), form_stmt(rng.choice(FORMS), c, [marks.bit()], [marks.bit()]), marks.bit()]
     return prog
 
 
